@@ -2,7 +2,7 @@
    initialize_row preserves Inv. *)
 From Coq Require Import List NArith Bool Lia.
 From SV Require Import lib.Bytes lib.Closure model.Graph model.GraphInv
-  proofs.GraphBase proofs.GraphNodes proofs.GraphInvP proofs.GraphPrims.
+  proofs.GraphBase proofs.GraphNodes proofs.GraphInvP proofs.GraphPrims proofs.GraphFrames.
 Import ListNotations.
 Open Scope N_scope.
 
@@ -317,13 +317,40 @@ Qed.
 (* ------------------------------------------------------------------------------------------ *)
 (* File.initialize_row                                                                         *)
 (* ------------------------------------------------------------------------------------------ *)
+(* the creator of a file that is (re)declared in an OUTPUT state is not a SUCCEEDED step *)
+Definition creator_quiet (creator : option key) (f : fstate) (s : st) : Prop :=
+  forall x, creator = Some (KStep, x) -> f <> FUnconfirmed -> f <> FVolatile ->
+            sstate_of x s <> Some SSucceeded.
+
+Lemma wpg_conj_lax {A} strict (r : res A) (Q1 Q2 : A -> Prop) :
+  wpg strict r Q1 -> wpg false r Q2 -> wpg strict r (fun a => Q1 a /\ Q2 a).
+Proof. destruct r, strict; cbn; auto. Qed.
+
+Lemma NPost_V k creator cdet s s1 x f' :
+  NPost k creator cdet s s1 -> (KFile, f') <> k ->
+  sstate_of x s1 = Some SSucceeded -> creator_of (KFile, f') s1 = Some (KStep, x) ->
+  sstate_of x s = Some SSucceeded /\ creator_of (KFile, f') s = Some (KStep, x).
+Proof.
+  intros HP Hne A B. split.
+  - unfold sstate_of, find_step in *. rewrite (np_steps _ _ _ _ _ HP) in A. exact A.
+  - rewrite creator_of_findn in *. destruct (findn (KFile, f') (nodes s1)) as [n1|] eqn:Hn1; [|discriminate].
+    destruct (np_cre _ _ _ _ _ HP _ _ Hne Hn1) as [n0 [Hn0 [Hc|Hc]]]; rewrite Hn0; congruence.
+Qed.
+
+Lemma NPost_hash k creator cdet s s1 x : NPost k creator cdet s s1 -> has_hash x s1 = true -> has_hash x s = true.
+Proof.
+  intros HP. unfold has_hash. rewrite !existsb_exists. intros [y [Hy1 Hy2]]. exists y.
+  split; [apply (np_hincl _ _ _ _ _ HP); exact Hy1 | exact Hy2].
+Qed.
+
 Lemma file_row_spec strict l creator cdet f s s1 :
   Inv hh s -> NPost (KFile, l) creator cdet s s1 ->
   (f = FUndeclared -> creator = None /\ cdet = true) ->
   (strict = true -> needs_hash f = false) ->
   wpg strict (file_initialize_row l f s1)
       (fun s' => Inv hh s' /\ nodes s' = nodes s1 /\
-                 exists st, fstate_of l s' = Some st /\ (st = f \/ out_state st = true)).
+                 (exists st, fstate_of l s' = Some st /\ (st = f \/ out_state st = true)) /\
+                 (creator_quiet creator f s -> GG s s')).
 Proof.
   intros HI HP Hund Hst. destruct (NPost_deps _ _ _ _ _ HI HP) as [HD HA].
   pose proof (inv_rw _ HI) as [R1 R2 R3 R4 R5 R6 R7].
@@ -335,8 +362,8 @@ Proof.
     set (state := match f with
                   | FUndeclared | FPlanned => match fstt r0 with FBuilt => FBuilt | FOutdated => FOutdated | _ => f end
                   | _ => f end).
-    assert (Hstate : state = f \/ (state = fstt r0 /\ (state = FBuilt \/ state = FOutdated))).
-    { unfold state. destruct f; auto; destruct (fstt r0); auto. }
+    assert (Hstate : state = f \/ ((f = FUndeclared \/ f = FPlanned) /\ state = fstt r0 /\ (state = FBuilt \/ state = FOutdated))).
+    { unfold state. destruct f; auto; destruct (fstt r0); auto 6. }
     replace (match f with
              | FUndeclared => match fstt r0 with FBuilt => FBuilt | FOutdated => FOutdated | _ => f end
              | FPlanned => match fstt r0 with FBuilt => FBuilt | FOutdated => FOutdated | _ => f end
@@ -364,25 +391,60 @@ Proof.
         + intros r Hr. apply filter_In in Hr. destruct Hr as [_ Hr]. apply negb_true_iff in Hr.
           apply str_eqb_neq in Hr. congruence.
       - intros Hsu n Hn. rewrite (np_k _ _ _ _ _ HP) in Hn. inversion Hn; subst n. cbn.
-        apply Hund. destruct Hstate as [Hs|[Hs [Hs'|Hs']]]; congruence.
+        apply Hund. destruct Hstate as [Hs|[_ [Hs [Hs'|Hs']]]]; congruence.
       - intros d sl Hd _ Hk. exfalso. rewrite (np_deps _ _ _ _ _ HP) in Hd. apply filter_In in Hd.
         destruct Hd as [_ Hd]. rewrite Hk, key_eqb_refl in Hd. discriminate.
       - intros Hs Hnh r Hr. rewrite Hff in Hr. inversion Hr; subst r.
-        destruct Hstate as [Hs1|[Hs1 Hs2]]; [rewrite Hs1, (Hst Hs) in Hnh; discriminate|].
+        destruct Hstate as [Hs1|[_ [Hs1 Hs2]]]; [rewrite Hs1, (Hst Hs) in Hnh; discriminate|].
         pose proof (inv_fh _ HI r0 Hr0in) as Hok. unfold fh_ok_b in Hok. rewrite <- Hs1 in Hok.
         destruct Hs2 as [Hs2|Hs2]; rewrite Hs2 in Hok; destruct (fh r0); discriminate. }
-    intros s2 [HI2 [HSO2 [_ [_ [_ [Hnew2 _]]]]]].
+    intros s2 [HI2 [HSO2 [Hsteps2 [Hsh2 [Hoth2 [Hnew2 _]]]]]].
     assert (Hne : find_file l s1 <> None). { rewrite Hff. discriminate. }
     specialize (HI2 Hne). specialize (Hnew2 Hne).
     assert (Hst2 : state = f \/ out_state state = true).
-    { destruct Hstate as [Hs|[_ [Hs|Hs]]]; [left; exact Hs | right; rewrite Hs; reflexivity | right; rewrite Hs; reflexivity]. }
+    { destruct Hstate as [Hs|[_ [_ [Hs|Hs]]]]; [left; exact Hs | right; rewrite Hs; reflexivity | right; rewrite Hs; reflexivity]. }
+    (* the creator (if a step) is not SUCCEEDED whenever the row ends up PLANNED / OUTDATED / BUILT-kept *)
+    assert (Hcq : creator_quiet creator f s -> forall x, creator = Some (KStep, x) ->
+                  (state = FPlanned \/ state = FOutdated \/ state = FBuilt) -> sstate_of x s <> Some SSucceeded).
+    { intros Hq x Hx Hs. destruct Hstate as [Hsf|[[Hf|Hf] _]].
+      - apply (Hq x Hx); intros He; rewrite He in Hsf; rewrite Hsf in Hs; destruct Hs as [Hs|[Hs|Hs]]; discriminate.
+      - destruct (Hund Hf) as [Hn _]. congruence.
+      - apply (Hq x Hx); rewrite Hf; discriminate. }
+    assert (G12 : creator_quiet creator f s -> GG s s2).
+    { intros Hq. constructor.
+      - intros x. unfold sstate_of, find_step. rewrite Hsteps2, (np_steps _ _ _ _ _ HP). auto.
+      - intros x. unfold sstate_of, find_step. rewrite Hsteps2, (np_steps _ _ _ _ _ HP). auto.
+      - intros x Hx. apply (NPost_hash _ _ _ _ _ _ HP). unfold has_hash in *. rewrite Hsh2 in Hx. exact Hx.
+      - intros x f' [A [B C]].
+        assert (A1 : sstate_of x s1 = Some SSucceeded). { unfold sstate_of, find_step in *. rewrite Hsteps2 in A. exact A. }
+        assert (B1 : creator_of (KFile, f') s1 = Some (KStep, x)). { rewrite <- (SO_creator_of _ _ _ HSO2). exact B. }
+        destruct (str_eq_dec f' l) as [->|Hnl].
+        + exfalso. rewrite creator_of_findn, (np_k _ _ _ _ _ HP) in B1. cbn in B1.
+          assert (A0 : sstate_of x s = Some SSucceeded). { unfold sstate_of, find_step in *. rewrite (np_steps _ _ _ _ _ HP) in A1. exact A1. }
+          apply (Hcq Hq x B1); [|exact A0]. unfold po in C. rewrite Hnew2 in C.
+          destruct C as [C|C]; inversion C; auto.
+        + assert (Hk : (KFile, f') <> (KFile, l)) by congruence.
+          destruct (NPost_V _ _ _ _ _ _ _ HP Hk A1 B1) as [A0 B0]. split; [exact A0|]. split; [exact B0|].
+          unfold po, fstate_of in *. rewrite (Hoth2 f' Hnl) in C. unfold find_file in *.
+          rewrite (np_files _ _ _ _ _ HP) in C. exact C. }
     assert (Hdone : wpg strict (Ok s2) (fun s' => Inv hh s' /\ nodes s' = nodes s1 /\
-                       exists st, fstate_of l s' = Some st /\ (st = f \/ out_state st = true))).
-    { cbn. split; [exact HI2|]. split; [apply (so_nodes _ _ HSO2)|]. exists state. auto. }
+                       (exists st, fstate_of l s' = Some st /\ (st = f \/ out_state st = true)) /\
+                       (creator_quiet creator f s -> GG s s'))).
+    { cbn. split; [exact HI2|]. split; [apply (so_nodes _ _ HSO2)|]. split; [exists state; auto | exact G12]. }
     destruct state eqn:Estate; try exact Hdone.
-    eapply wpg_weaken; [apply (@mark_file_outdated_spec hh); [exact HI2 | intros _; left; exact Hnew2]|].
-    intros s3 [HI3 [HSO3 HO3]]. split; [exact HI3|]. split; [rewrite (so_nodes _ _ HSO3); apply (so_nodes _ _ HSO2)|].
-    destruct (HO3 l) as [Ho|[_ Ho]]; [exists FBuilt | exists FOutdated]; (split; [congruence | right; reflexivity]).
+    destruct (mark_file_outdated l s2) as [s3|t3|t3] eqn:Em.
+    + pose proof (@mark_file_outdated_spec hh strict l s2 HI2 (fun _ => or_introl Hnew2)) as Hm. rewrite Em in Hm.
+      cbn in Hm. destruct Hm as [HI3 [HSO3 HO3]]. cbn [wpg].
+      split; [exact HI3|]. split; [rewrite (so_nodes _ _ HSO3); apply (so_nodes _ _ HSO2)|]. split.
+      * destruct (HO3 l) as [Ho|[_ Ho]]; [exists FBuilt | exists FOutdated]; (split; [congruence | right; reflexivity]).
+      * intros Hq. eapply GG_trans; [apply G12; exact Hq|].
+        assert (Hg : wpg false (mark_file_outdated l s2) (GG s2)).
+        { apply (@mark_file_outdated_GG hh); [exact HI2|]. intros x Hx Hs.
+          rewrite (SO_creator_of _ _ _ HSO2), creator_of_findn, (np_k _ _ _ _ _ HP) in Hx. cbn in Hx.
+          apply (Hcq Hq x Hx); [auto|]. unfold sstate_of, find_step in *. rewrite Hsteps2, (np_steps _ _ _ _ _ HP) in Hs. exact Hs. }
+        rewrite Em in Hg. exact Hg.
+    + exact I.
+    + pose proof (@mark_file_outdated_spec hh strict l s2 HI2 (fun _ => or_introl Hnew2)) as Hm. rewrite Em in Hm. exact Hm.
   - (* no row: the node is new *)
     assert (HkKL : ~ In (KFile, l) (KL (nodes s))).
     { intros H. apply R3 in H. apply findf_none in Hold. contradiction. }
@@ -424,7 +486,27 @@ Proof.
     assert (Hfs2 : fstate_of l s2 = Some f).
     { rewrite fstate_of_findf. unfold s2. cbn [files set_files]. rewrite (np_files _ _ _ _ _ HP).
       unfold findf in *. rewrite find_app, Hold. cbn. rewrite str_eqb_refl. reflexivity. }
-    destruct f; try discriminate; cbn; (split; [exact HI2 | split; [reflexivity | eexists; split; [exact Hfs2 | left; reflexivity]]]).
+    assert (G12 : creator_quiet creator f s -> GG s s2).
+    { intros Hq. constructor.
+      - intros x. unfold sstate_of, find_step. cbn [steps set_files s2]. rewrite (np_steps _ _ _ _ _ HP). auto.
+      - intros x. unfold sstate_of, find_step. cbn [steps set_files s2]. rewrite (np_steps _ _ _ _ _ HP). auto.
+      - intros x Hx. apply (NPost_hash _ _ _ _ _ _ HP). exact Hx.
+      - intros x f' [A [B C]].
+        assert (A1 : sstate_of x s1 = Some SSucceeded) by exact A.
+        assert (B1 : creator_of (KFile, f') s1 = Some (KStep, x)) by exact B.
+        destruct (str_eq_dec f' l) as [->|Hnl].
+        + exfalso. rewrite creator_of_findn, (np_k _ _ _ _ _ HP) in B1. cbn in B1.
+          assert (A0 : sstate_of x s = Some SSucceeded). { unfold sstate_of, find_step in *. rewrite (np_steps _ _ _ _ _ HP) in A1. exact A1. }
+          unfold po in C. rewrite Hfs2 in C.
+          apply (Hq x B1); [| |exact A0]; intros He; rewrite He in C; destruct C as [C|C]; discriminate.
+        + assert (Hk : (KFile, f') <> (KFile, l)) by congruence.
+          destruct (NPost_V _ _ _ _ _ _ _ HP Hk A1 B1) as [A0 B0]. split; [exact A0|]. split; [exact B0|].
+          unfold po in *. rewrite !fstate_of_findf in *. unfold s2 in C. cbn [files set_files] in C.
+          rewrite (np_files _ _ _ _ _ HP) in C. unfold findf in *. rewrite find_app in C.
+          destruct (find (fun f0 => str_eqb (fl f0) f') (files s)) as [r|]; [exact C|].
+          cbn in C. apply str_eqb_neq in Hnl. rewrite str_eqb_sym, Hnl in C. cbn in C. destruct C; discriminate. }
+    destruct f; try discriminate; cbn;
+      (split; [exact HI2 | split; [reflexivity | split; [eexists; split; [exact Hfs2 | left; reflexivity] | exact G12]]]).
 Qed.
 
 (* ------------------------------------------------------------------------------------------ *)
@@ -451,7 +533,9 @@ Lemma create_spec strict k creator arg s :
       (fun s' => Inv hh s' /\ NF [k] s s' /\ In k (KL (nodes s')) /\
                  is_detached k s' = cdet_of creator s /\ creator_of k s' = creator /\
                  (forall f, arg = InitFile f ->
-                    exists st, fstate_of (snd k) s' = Some st /\ (st = f \/ out_state st = true))).
+                    exists st, fstate_of (snd k) s' = Some st /\ (st = f \/ out_state st = true)) /\
+                 ((forall f, arg = InitFile f -> creator_quiet creator f s) -> GG s s') /\
+                 (forall nd, arg = InitStep nd -> sstate_of (snd k) s' = Some SPending)).
 Proof.
   intros HI Harg Hst. rewrite create_unfold.
   destruct (creator_ok k creator s) as [[]|t|t] eqn:Hco.
@@ -475,20 +559,52 @@ Proof.
     { apply (file_row_spec strict l creator (cdet_of creator s) f s s1 HI HP).
       - intros Hf. split; [apply Hu; exact Hf|]. rewrite (Hu Hf). reflexivity.
       - intros Hs. destruct (Hst Hs) as [_ [_ H]]. apply H. reflexivity. }
-    intros s' [HI' [Hn' Hst']]. split; [exact HI'|]. split; [|split; [|split; [|split]]].
+    intros s' [HI' [Hn' [Hst' HG']]]. split; [exact HI'|]. split; [|split; [|split; [|split; [|split; [|split]]]]].
+    7:{ intros nd0 H0. discriminate. }
     + eapply NF_nodes_eq; [apply (NPost_NF _ _ _ _ _ HP) | exact Hn'].
     + rewrite Hn'. exact HKin.
     + rewrite is_detached_findn, Hn'. exact Hdet1.
     + unfold creator_of, find_node. rewrite Hn'. exact Hcre1.
     + intros f0 Hf0. inversion Hf0; subst f0. exact Hst'.
+    + intros Hq. apply HG'. apply Hq. reflexivity.
   - destruct k as [kk l]. cbn in Harg. subst kk. cbn [snd]. unfold step_initialize_row. cbn [wpg].
     split; [apply (step_row_inv l creator (cdet_of creator s) nd s s1 HI HP)|].
-    split; [|split; [|split; [|split]]].
+    split; [|split; [|split; [|split; [|split; [|split]]]]].
+    7:{ intros nd0 _. unfold sstate_of, find_step. cbn [steps set_steps]. rewrite find_app, find_filter.
+        destruct (find (fun x0 => negb (str_eqb (sl x0) l) && str_eqb (sl x0) l) (steps s1)) as [r|] eqn:E.
+        - exfalso. apply find_some in E. destruct E as [_ E]. apply andb_true_iff in E. destruct E as [E1 E2].
+          rewrite E2 in E1. discriminate.
+        - cbn. rewrite str_eqb_refl. reflexivity. }
     + eapply NF_nodes_eq; [apply (NPost_NF _ _ _ _ _ HP) | reflexivity].
     + exact HKin.
     + exact Hdet1.
     + exact Hcre1.
     + intros f0 Hf0. discriminate.
+    + intros _. set (s' := set_steps s1 _).
+      assert (Hss : forall x st', sstate_of x s' = Some st' -> st' = SPending \/ sstate_of x s = Some st').
+      { intros x st'. unfold sstate_of, find_step, s'. cbn [steps set_steps]. rewrite find_app, find_filter.
+        rewrite (np_steps _ _ _ _ _ HP).
+        destruct (find (fun x0 => negb (str_eqb (sl x0) l) && str_eqb (sl x0) x) (steps s)) as [r|] eqn:E.
+        - intros H. right. pose proof (find_some _ _ E) as [_ Hr]. apply andb_true_iff in Hr. destruct Hr as [Hr1 Hr2].
+          assert (Hfirst : find (fun r0 => str_eqb (sl r0) x) (steps s) = Some r).
+          { clear H. revert E. induction (steps s) as [|y ys IH]; cbn; [discriminate|].
+            destruct (str_eqb (sl y) x) eqn:Ey.
+            - destruct (negb (str_eqb (sl y) l)) eqn:Ek; cbn; [intros H; exact H|].
+              intros H. exfalso. apply negb_false_iff in Ek. apply str_eqb_eq in Ek. apply str_eqb_eq in Ey.
+              apply str_eqb_eq in Hr2. apply negb_true_iff in Hr1. apply str_eqb_neq in Hr1. congruence.
+            - rewrite andb_false_r. exact IH. }
+          rewrite Hfirst. exact H.
+        - cbn. destruct (str_eqb l x); [|discriminate]. intros H. inversion H. left. reflexivity. }
+      constructor.
+      * intros x Hx. destruct (Hss x _ Hx) as [A|A]; [discriminate | exact A].
+      * intros x Hx. destruct (Hss x _ Hx) as [A|A]; [discriminate | exact A].
+      * intros x Hx. apply (NPost_hash _ _ _ _ _ _ HP). exact Hx.
+      * intros x f' [A [B C]]. destruct (Hss x _ A) as [A'|A']; [discriminate|].
+        assert (Hk : (KFile, f') <> (KStep, l)) by discriminate.
+        assert (A1 : sstate_of x s1 = Some SSucceeded).
+        { unfold sstate_of, find_step in *. rewrite (np_steps _ _ _ _ _ HP). exact A'. }
+        destruct (NPost_V _ _ _ _ _ _ _ HP Hk A1 B) as [A0 B0]. split; [exact A0|]. split; [exact B0|].
+        unfold po, fstate_of, find_file in *. cbn [files set_steps s'] in C. rewrite (np_files _ _ _ _ _ HP) in C. exact C.
 Qed.
 
 End HH.
